@@ -158,6 +158,21 @@ func runC19(seed int64, tier string, sc *Script) map[string]any {
 									}
 									sc.Op(v, "pk det ver=%s at=%s cfg=%s layers=%d subject=%d target=%s", ver, at, cfg, layers, subject, target)
 									evals++
+									// and once more into the very same target, which now holds everything
+									// the call produces: the same descriptor again, no error
+									var p2 content.Pusher = rt
+									if target != "pusher" {
+										p2 = recROS{rt}
+									}
+									d3, err3 := oras.PackManifest(ctx, p2, version, artifactType, opts)
+									v = "same"
+									if err3 != nil {
+										v = "err:" + strings.ReplaceAll(err3.Error(), " ", "_")
+									} else if d3.Digest != desc.Digest || d3.Size != desc.Size || d3.MediaType != desc.MediaType {
+										v = "different"
+									}
+									sc.Op(v, "pk again ver=%s at=%s cfg=%s layers=%d subject=%d target=%s", ver, at, cfg, layers, subject, target)
+									evals++
 								}
 							}
 						}
